@@ -100,6 +100,44 @@ def campaign(c):
         elif k == 2: lit, want = '"|%s%s%s|"' % (body, r.choice('gGxz!@,;'), body), None             # non-hex character
         else: lit, want = '"a|%s|b"' % body, 'str:' + sh_hex(b'a' + bs + b'b')
         expect_value(c, lit, want)
+    # string literals with SEVERAL sections: an odd or ill-formed closed section anywhere must reject the whole literal
+    def pydecode(t):
+        """reference decoder written from the property text: text bytes, |..| sections of hex digit pairs, fillers ignored"""
+        out, i, hexm, nib = bytearray(), 0, False, []
+        for ch in t:
+            if not hexm:
+                if ch == '|': hexm, nib = True, []
+                else: out += ch.encode('utf-8')
+            else:
+                if ch.isspace() or ch in ":._-'`": continue
+                if ch == '|':
+                    if len(nib) % 2: return None
+                    hexm = False; continue
+                if ch not in '0123456789abcdefABCDEF': return None
+                nib.append(ch)
+                if len(nib) % 2 == 0: out.append(int(nib[-2] + nib[-1], 16))
+        return bytes(out)
+    import itertools
+    ALPHA = ['a', '|', '0', 'f', ' ', 'g', ':']
+    L = 6 if c.quick else 8
+    for ln in range(0, L + 1):
+        for t in itertools.product(ALPHA, repeat=ln):
+            txt = ''.join(t)
+            if txt.count('|') < 2 and ln > 4: continue
+            want = pydecode(txt)
+            expect_value(c, '"%s"' % txt, ('str:' + sh_hex(want)) if want is not None else None)
+    for i in range(300 if c.quick else 6000):
+        r = c.rng.fork('ms%d' % i)
+        parts = []
+        for _ in range(1 + r.below(4)):
+            k = r.below(4)
+            if k == 0: parts.append(''.join(r.choice('GETxyz /09') for _ in range(r.below(5))))
+            elif k == 1: parts.append('|%s|' % r.bytes(r.below(4)).hex())
+            elif k == 2: parts.append('|%s%s|' % (r.bytes(r.below(3)).hex(), r.choice('0123456789abcdef')))
+            else: parts.append('|%s|' % ' '.join('%02X' % b for b in r.bytes(r.below(4))))
+        txt = ''.join(parts)
+        want = pydecode(txt)
+        expect_value(c, '"%s"' % txt, ('str:' + sh_hex(want)) if want is not None else None)
     c.assumptions += ['expected values are computed from the spelling by the campaign (Python big integers), independently of model and implementation']
 
 
